@@ -983,4 +983,15 @@ pub(crate) fn merge_nodes(
 #[allow(missing_docs, unused_imports, dead_code, clippy::all, clippy::pedantic, clippy::nursery)]
 pub mod verif_hooks {
     use super::*;
+    use crate::repository::{IndexedTree, Repository};
+
+    /// Runs a `TreeStreamerOnce` over the given root trees on the repository's backend and index and
+    /// collects what it yields (in the order it yields).
+    pub fn stream_once<S: IndexedTree>(
+        repo: &Repository<S>,
+        ids: Vec<TreeId>,
+    ) -> RusticResult<Vec<RusticResult<(PathBuf, Tree)>>> {
+        let p = repo.progress_counter("");
+        Ok(TreeStreamerOnce::new(repo.dbe(), repo.index(), ids, p)?.collect())
+    }
 }
